@@ -34,6 +34,8 @@ INTERPRETED = (
     "picosvg.geometric_types",
     "picosvg.svg_transform",
     "picosvg.svg_meta",
+    "fontTools.misc.arrayTools",
+    "fontTools.misc.roundTools",
     "spec",
     "c_",
     "contracts",
